@@ -14,6 +14,9 @@ pub enum FloatEnv {
     Native,
     /// native result moved by this many units in the last place
     Ulp(i32),
+    /// call-to-call variation ("can even differ within the same execution from one invocation to the
+    /// next"): +d ULP on even calls at the site, -d ULP on odd calls
+    UlpAlt(i32),
     /// a subnormal result is flushed to zero (FTZ/DAZ)
     FlushSubnormal,
     /// relative error 2^-k (sign = direction): stress only, never bears a verdict
@@ -28,6 +31,7 @@ impl FloatEnv {
             FloatEnv::Native => 0,
             FloatEnv::Ulp(d) => 1000 + (d as i64 + 500) as u64,
             FloatEnv::FlushSubnormal => 1,
+            FloatEnv::UlpAlt(d) => 5000 + (d as i64 + 500) as u64,
             FloatEnv::Rel(k) => 3000 + (k as i64 + 200) as u64,
             FloatEnv::ForceZero => 2,
         }
@@ -37,14 +41,20 @@ impl FloatEnv {
             FloatEnv::Native => "native".into(),
             FloatEnv::Ulp(d) => format!("ulp{:+}", d),
             FloatEnv::FlushSubnormal => "flush_subnormal".into(),
+            FloatEnv::UlpAlt(d) => format!("ulp_alternating{:+}", d),
             FloatEnv::Rel(k) => format!("rel2^-{}{}", k.abs(), if k < 0 { "(down)" } else { "(up)" }),
             FloatEnv::ForceZero => "force_zero".into(),
         }
     }
     pub fn apply(&self, real: f64) -> f64 {
+        self.apply_nth(real, 0)
+    }
+    /// result for the n-th call (0-based) at the site in this execution
+    pub fn apply_nth(&self, real: f64, n: usize) -> f64 {
         match *self {
             FloatEnv::Native => real,
             FloatEnv::Ulp(d) => nudge(real, d as i64),
+            FloatEnv::UlpAlt(d) => nudge(real, if n % 2 == 0 { d as i64 } else { -(d as i64) }),
             FloatEnv::FlushSubnormal => {
                 if real != 0.0 && real.abs() < f64::MIN_POSITIVE {
                     0.0
@@ -100,7 +110,8 @@ impl FloatHookGuard {
             if s != site {
                 return real;
             }
-            let out = env.apply(real);
+            let n = l2.borrow().calls.len();
+            let out = env.apply_nth(real, n);
             l2.borrow_mut().calls.push((arg, real, out));
             out
         })));
